@@ -1,11 +1,11 @@
-\* exhaustive, quick: every Update/BulkWrite session with up to 2 inner calls from each of the 8 initial contents
+\* exhaustive, quick: every Update/BulkWrite session with up to 2 inner calls from each of 4 initial contents
 CONSTANTS
   StoreKeys <- KeysABC
   Targets <- TargetsABC
   Vals <- ValsEX
   MaxLen = 3
   Phased = FALSE
-  InitFamily <- InitSubsets
+  InitFamily <- InitFew
   Ops <- OpsTxOnly
 INIT Init
 NEXT Next
